@@ -6,3 +6,5 @@ FUNCTIONS = ['uxarray.core.aggregation._apply_node_to_edge_aggregation_numpy@dim
 STANDINS = ["aggregations"]
 ASSUMPTIONS = []
 EXPLANATION = "partition / gather contracts + bounded stand-in over all ten reductions"
+LEVEL_TEXT = '_apply_node_to_edge_aggregation_numpy proved for an arbitrary reduction (uninterpreted function of the value sequence along the last axis): every edge reduces exactly its two nodes, rank 1 and 2; node->face partitions and the ten numpy reductions bounded'
+LEVEL_NOTE = 'aggregation function = function of the last-axis value sequence; get_face_node_partitions / face scatter not under contract'
